@@ -301,15 +301,16 @@ def compileExpr : Nat → Expr → C Unit
       compileExpr fuel l; compileExpr fuel r; arith op sp
   | .assign sp op l r =>
     match l with
-    | .ident _ _ name isGlobal _ _ => do
+    | .ident _ _ name isGlobal _ isSingleton => do
       let m := (← getMangled name).getD name
+      -- a singleton lives in a global, like in the identifier case
       match op with
       | some o => do
-        emit (if isGlobal then .getGlob m else .getVar m) sp
+        emit (if isGlobal || isSingleton then .getGlob m else .getVar m) sp
         compileExpr fuel r
         arith o sp
       | none => compileExpr fuel r
-      emit (if isGlobal then .setGlob m else .setVar m) sp
+      emit (if isGlobal || isSingleton then .setGlob m else .setVar m) sp
     | _ => do
       compileExpr fuel l
       match op with
